@@ -424,7 +424,9 @@ def replay_tx_row(ctx, row, which):
 
 
 def _weight(e):
-    return 40 + len(e.get("a", ())) + len(e.get("r", ())) + 2 * len(e.get("reser", ()))
+    return (40 + len(e.get("a", ())) + len(e.get("r", ())) + 2 * len(e.get("reser", ())) + len(e.get("re", ()))
+            + sum(len(i["d"]) + 8 for i in e.get("items", ())) + sum(len(x) + 4 for x in e.get("stack", ()))
+            + sum(len(x) for x in e.get("keys", ())) + sum(len(x) for x in e.get("sigs", ())))
 
 
 def validate_balanced(module, events, tag, drop=("cls", "e", "int", "value")):
@@ -463,6 +465,6 @@ def spec_opcodes():
     body = text[text.index("OpByte == ["):]
     body = body[:body.index("]")]
     table = {m.group(1): int(m.group(2)) for m in re.finditer(r"(OP_\w+) \|-> (\d+)", body)}
-    if len(table) < 120:
+    if len(table) < 110:
         raise vlib.MachineryFailure("could not parse the opcode table of Script.tla")
     return table
